@@ -5,7 +5,8 @@
    the call (None = undefined).  [rejects x] = exists r, x = Reject r. *)
 From Coq Require Import Permutation.
 From FrameModel Require Import Num.QcTac Geometry.Rect Yaml.Tree Yaml.NetlistRead
-  Yaml.NetlistWrite Yaml.NetlistFacts Yaml.NetlistDerived Yaml.NetlistRoundTrip.
+  Yaml.NetlistWrite Yaml.NetlistFacts Yaml.NetlistDerived Yaml.NetlistRoundTrip
+  Yaml.NetlistImage Yaml.NetlistDoc Yaml.NetlistAccept.
 Open Scope Qc_scope.
 
 (* ---- derived quantities ---- *)
@@ -139,7 +140,96 @@ Theorem C05_reject_nonpositive_rect_size : forall sqrt_o e t name info v r,
 Proof. exact reject_nonpositive_rect_size. Qed.
 Print Assumptions C05_reject_nonpositive_rect_size.
 
+(* ---- the hard-module rejections on the literal attributes of the document ---- *)
+(* [hard_literal info]: the attribute mapping holds "hard: true" or "fixed: true".
+   An area is any value but the empty mapping (which Module.__init__ reads as
+   "no area"). *)
+Theorem C05_reject_hard_with_area_doc : forall sqrt_o e t name info v,
+  module_at t name info -> hard_literal info ->
+  In (KW_AREA, v) info -> v <> YMap [] ->
+  rejects (read_netlist sqrt_o e t).
+Proof. exact reject_hard_with_area_doc. Qed.
+Print Assumptions C05_reject_hard_with_area_doc.
+
+Theorem C05_reject_hard_without_rectangles_doc : forall sqrt_o e t name info,
+  module_at t name info -> hard_literal info ->
+  ~ In (KW_TERMINAL, YBool true) info -> has_key KW_RECTANGLES info = false ->
+  rejects (read_netlist sqrt_o e t).
+Proof. exact reject_hard_without_rectangles_doc. Qed.
+Print Assumptions C05_reject_hard_without_rectangles_doc.
+
+(* [doc_overlapping_pair aeps v]: two entries [x, y, w, h(, region)] at any two
+   positions of the rectangle list v whose rectangles overlap by more than aeps *)
+Theorem C05_reject_hard_overlap_doc : forall sqrt_o e t name info v aeps,
+  module_at t name info -> hard_literal info -> ~ In (KW_TERMINAL, YBool true) info ->
+  In (KW_RECTANGLES, v) info -> doc_overlapping_pair aeps v ->
+  (forall ms es ms1, parse_netlist t = Ok (ms, es) -> cr_squares sqrt_o ms = Ok ms1 ->
+     area_eps (epsilon_after sqrt_o e ms1) = aeps) ->
+  rejects (read_netlist sqrt_o e t).
+Proof. exact reject_hard_overlap_doc. Qed.
+Print Assumptions C05_reject_hard_overlap_doc.
+
+Theorem C05_reject_hard_overlap_doc_eps : forall sqrt_o eps aeps t name info v,
+  module_at t name info -> hard_literal info -> ~ In (KW_TERMINAL, YBool true) info ->
+  In (KW_RECTANGLES, v) info -> doc_overlapping_pair aeps v ->
+  rejects (read_netlist sqrt_o (Some (eps, aeps)) t).
+Proof. exact reject_hard_overlap_doc_eps. Qed.
+Print Assumptions C05_reject_hard_overlap_doc_eps.
+
 (* ---- acceptance ---- *)
+(* [well_formed_doc t] (Yaml/NetlistAccept.v) is a predicate on the document
+   alone: root keys Modules / Nets; valid distinct module names; per module a
+   mapping with distinct known keys in ANY order, well-formed values (area: a
+   positive number or a non-empty mapping of valid region names to positive
+   numbers; center: two numbers; aspect_ratio: a positive number or [x, y] with
+   0 <= x <= 1 <= y; flags: booleans; rectangles: one entry or a non-empty list
+   of entries [x, y, w, h] with x, y >= 0 and w, h > 0, a region only for soft
+   modules) and a consistent kind (soft: an area, not flippable; hard = "hard:
+   true" / "fixed: true" / terminal: no area, no aspect ratio, a centre only
+   for terminals, rectangles unless a terminal, not both fixed and flippable;
+   terminal: "terminal: true" without area / aspect ratio / flip; a fixed
+   terminal has a centre); nets of at least two known module names and
+   possibly a positive weight.
+   [doc_geometry_ok eps aeps t] states the two geometric checks of
+   _create_rectangles on the rectangle entries: the rectangles of a hard
+   non-terminal module do not overlap by more than aeps, a flippable module has
+   one rectangle or a rectangle to which all others abut. *)
+Theorem C05_accept_well_formed_doc : forall sqrt_o e eps aeps t,
+  well_formed_doc t ->
+  (forall ms es, parse_netlist t = Ok (ms, es) ->
+     match epsilon_after sqrt_o e ms with Some p => p | None => (0, 0) end = (eps, aeps)) ->
+  doc_geometry_ok eps aeps t ->
+  exists n, read_netlist sqrt_o e t = Ok n.
+Proof. exact accept_well_formed_doc. Qed.
+Print Assumptions C05_accept_well_formed_doc.
+
+Theorem C05_accept_well_formed_doc_eps : forall sqrt_o eps aeps t,
+  well_formed_doc t -> doc_geometry_ok eps aeps t ->
+  exists n, read_netlist sqrt_o (Some (eps, aeps)) t = Ok n.
+Proof. exact accept_well_formed_doc_eps. Qed.
+Print Assumptions C05_accept_well_formed_doc_eps.
+
+(* no side condition at all when every hard module has one rectangle (soft
+   modules may have any number): loaded whatever the epsilon state *)
+Theorem C05_accept_well_formed_doc_single : forall sqrt_o e t,
+  well_formed_doc t -> hard_single_rect t -> exists n, read_netlist sqrt_o e t = Ok n.
+Proof. exact accept_well_formed_doc_single. Qed.
+Print Assumptions C05_accept_well_formed_doc_single.
+
+(* a well-formed attribute mapping, whatever the order of its keys, is accepted
+   by parse_yaml_module / Module.__init__ / setup, with the kind the document states *)
+Theorem C05_accept_module : forall name info,
+  valid_identifier name = true -> wf_info info ->
+  exists m, parse_module name (YMap info) = Ok m /\
+    m_hard m = doc_hard info /\ m_terminal m = has_key KW_TERMINAL info /\
+    m_fixed m = flag KW_FIXED info /\ m_flip m = flag KW_FLIP info /\
+    match lookup KW_RECTANGLES info with
+    | Some v => parse_rectangles (flag KW_FIXED info) (doc_hard info) v = Ok (m_rects m) /\ m_rects m <> []
+    | None => m_rects m = []
+    end.
+Proof. exact parse_module_accepts. Qed.
+Print Assumptions C05_accept_module.
+
 (* every canonical design (Yaml/NetlistRoundTrip.v), written in the exchange
    format, is accepted *)
 Theorem C05_accept_well_formed : forall sqrt_o e n,
@@ -147,3 +237,11 @@ Theorem C05_accept_well_formed : forall sqrt_o e n,
   exists n', read_netlist sqrt_o e (NetlistWrite.write_netlist n) = Ok n'.
 Proof. exact NetlistRoundTrip.accept_well_formed. Qed.
 Print Assumptions C05_accept_well_formed.
+
+(* every document the reader accepts is accepted again after being written
+   (with C04_image_canonical: the written form of every loaded design) *)
+Theorem C05_accept_rewritten : forall sqrt_o e t n,
+  read_netlist sqrt_o e t = Ok n ->
+  exists n', read_netlist sqrt_o e (NetlistWrite.write_netlist n) = Ok n'.
+Proof. exact accept_rewritten. Qed.
+Print Assumptions C05_accept_rewritten.
